@@ -31,6 +31,7 @@ def main (args : List String) : IO UInt32 := do
   | ["stream"] => loopState stdin stdout Driver.StreamDrv.streamStep Driver.StreamDrv.SState.init; stdout.flush; return 0
   | ["api"] => loopStateless stdin stdout Driver.ApiDrv.step; stdout.flush; return 0
   | ["fsm"] => loopState stdin stdout Driver.FsmDrv.step ({} : Robust.Fsm.Node); stdout.flush; return 0
+  | ["ircperm"] => loopState stdin stdout Driver.IrcDrv.stepPerm Driver.IrcDrv.init; stdout.flush; return 0
   | ["irc"] => loopState stdin stdout Driver.IrcDrv.step Driver.IrcDrv.init; stdout.flush; return 0
   | ["resume"] => loopStateless stdin stdout Driver.ResumeDrv.step; stdout.flush; return 0
   | ["store"] => loopState stdin stdout Driver.StoreDrv.step (Robust.Store.Store.empty false); stdout.flush; return 0
